@@ -1233,6 +1233,13 @@ func replay(w *world, tr *hx.Trace, f string) {
 
 	// a generated case: regenerate document cd.DocIndex of run cd.Seed and apply the edit of the same name
 	rng := hx.NewRng(cd.Seed)
+
+	if strings.HasPrefix(cd.Edit, "jwt ") {
+		i := cd.DocIndex
+		w.runJWT(tr, &gen{rng: rng.Fork(uint64(7000 + i)), w: w}, rng.Fork(uint64(8000+i)), cd.Seed, i, true)
+
+		return
+	}
 	g := &gen{rng: rng.Fork(1), w: w}
 
 	for i := 0; i <= cd.DocIndex; i++ {
